@@ -75,7 +75,7 @@ fn build(seed: u64, i: usize) -> Built {
     let mut knobs = Knobs::random(&mut r_proj);
     knobs.shadowing = true; // CFG-stage reports are what the cache transports
     knobs.components = true;
-    let shape = ProjectShape { max_files: 3, max_defs: 6, with_main: true, pragma_always: false };
+    let shape = ProjectShape { max_files: 3, max_defs: 6, with_main: true, pragma_always: false, name_suffix: String::new() };
     let mut project = gen::gen_project(&mut r_proj, &knobs, &shape);
     if r_proj.chance(1, 3) {
         project.named = (0..project.files.len()).collect();
